@@ -1,2 +1,577 @@
-(* Proofs for property C19. *)
-From SC.Model Require Import Base.
+(* Proofs for property C19 (every configured language is a relabelling of the same calculator).
+
+   1. *_lang            the pipeline reads the language tag only as a key into six per-language tables
+                        (parametricity: all lines, all configurations, any number algebra)
+   2. tables            the regenerated tables of en and tr are parallel (finite tables, vm_compute)
+   3. word-free         on token lists without Text / Month tokens the rule loops of en and tr rewrite
+                        alike (open terms, vm_compute)
+   4. prints            month names and unit words of the printed text
+   5. pipeline          pairs of lines through exec64; the two recorded defects *)
+From Coq Require Import Floats.
+From SC.Model Require Import Base Num NumF64 FloatIO Types Config Case Chrono UiTokens Rx Post Parser Items Interp RuleFns Rules
+     Format Lexer Api.
+From Coq Require Import ZArith Lia.
+
+(* ------------------------------------------------------------------------------------- *)
+(* 1. the language tag only selects tables                                                *)
+(* ------------------------------------------------------------------------------------- *)
+Section LangParam.
+Context {F : Type} {NF : Num F}.
+Variable lx : lexdata.
+Variable cfg : config F.
+
+(* the six lookups keyed by the language tag; cf_months is keyed by the lf_language field of the
+   selected format entry, not by the tag *)
+Definition same_tables (l l' : str) : Prop :=
+  assoc l (cf_constant_pair cfg) = assoc l' (cf_constant_pair cfg) /\
+  assoc l (cf_word_group cfg) = assoc l' (cf_word_group cfg) /\
+  assoc l (cf_rules cfg) = assoc l' (cf_rules cfg) /\
+  assoc l (cf_format cfg) = assoc l' (cf_format cfg) /\
+  assoc l (lx_lang_alias lx) = assoc l' (lx_lang_alias lx) /\
+  assoc l (lx_months lx) = assoc l' (lx_months lx).
+
+Definition unknown_tag (l : str) : Prop :=
+  assoc l (cf_constant_pair cfg) = None /\ assoc l (cf_word_group cfg) = None /\
+  assoc l (cf_rules cfg) = None /\ assoc l (cf_format cfg) = None /\
+  assoc l (lx_lang_alias lx) = None /\ assoc l (lx_months lx) = None.
+
+Lemma unknown_same l l' : unknown_tag l -> unknown_tag l' -> same_tables l l'.
+Proof.
+  intros (a & b & c & d & e & f) (a' & b' & c' & d' & e' & f').
+  repeat split; congruence.
+Qed.
+
+Lemma same_tables_refl l : same_tables l l.
+Proof. repeat split. Qed.
+
+Lemma same_tables_sym l l' : same_tables l l' -> same_tables l' l.
+Proof. intros (a & b & c & d & e & f). repeat split; symmetry; assumption. Qed.
+
+Section Pair.
+Variables l l' : str.
+Hypothesis H : same_tables l l'.
+
+Lemma st_constants : lang_constants cfg l = lang_constants cfg l'.
+Proof. unfold lang_constants. apply H. Qed.
+Lemma st_groups : lang_groups cfg l = lang_groups cfg l'.
+Proof. unfold lang_groups. apply H. Qed.
+Lemma st_rules : lang_rules cfg l = lang_rules cfg l'.
+Proof. unfold lang_rules. apply H. Qed.
+Lemma st_format : lang_format cfg l = lang_format cfg l'.
+Proof. unfold lang_format. destruct H as (_ & _ & _ & -> & _). reflexivity. Qed.
+Lemma st_alias : assoc l (lx_lang_alias lx) = assoc l' (lx_lang_alias lx).
+Proof. apply H. Qed.
+Lemma st_months : assoc l (lx_months lx) = assoc l' (lx_months lx).
+Proof. apply H. Qed.
+
+(* ---- lexer ---- *)
+Lemma month_parser_lang line st : month_parser lx cfg l line st = month_parser lx cfg l' line st.
+Proof. unfold month_parser. rewrite st_months. reflexivity. Qed.
+
+Lemma language_tokinizer_lang line st :
+  language_tokinizer lx cfg l line st = language_tokinizer lx cfg l' line st.
+Proof. unfold language_tokinizer. rewrite month_parser_lang. reflexivity. Qed.
+
+Lemma get_field_type_lang ty name extra :
+  get_field_type cfg l ty name extra = get_field_type cfg l' ty name extra.
+Proof. unfold get_field_type. rewrite st_groups. reflexivity. Qed.
+
+Lemma field_body_lang line c0 cp st : field_body cfg l line c0 cp st = field_body cfg l' line c0 cp st.
+Proof.
+  unfold field_body.
+  destruct (need (cap_name c0 cp "FIELD")) as [fsp|]; cbn [bind]; [|reflexivity].
+  destruct (need (cap_name c0 cp "NAME")) as [nsp|]; cbn [bind]; [|reflexivity].
+  rewrite get_field_type_lang. reflexivity.
+Qed.
+
+Lemma text_body_lang today line c0 cp st :
+  text_body today cfg l line c0 cp st = text_body today cfg l' line c0 cp st.
+Proof. unfold text_body. rewrite st_constants. reflexivity. Qed.
+
+Lemma over_captures_ext (b1 b2 : @parser_body F) :
+  (forall c0 cp st, b1 c0 cp st = b2 c0 cp st) ->
+  forall c0 cps st, over_captures b1 c0 cps st = over_captures b2 c0 cps st.
+Proof.
+  intros E c0 cps. induction cps as [|cp r IH]; intros st; [reflexivity|].
+  cbn [over_captures]. rewrite E. destruct (b2 c0 cp st); cbn [bind]; [apply IH|reflexivity].
+Qed.
+
+Lemma over_regexes_ext (b1 b2 : @parser_body F) :
+  (forall c0 cp st, b1 c0 cp st = b2 c0 cp st) ->
+  forall data rs st, over_regexes b1 data rs st = over_regexes b2 data rs st.
+Proof.
+  intros E data rs. induction rs as [|c0 r IH]; intros st; [reflexivity|].
+  cbn [over_regexes]. rewrite (over_captures_ext b1 b2 E).
+  destruct (over_captures b2 c0 _ st); cbn [bind]; [apply IH|reflexivity].
+Qed.
+
+Lemma run_parser_lang today line key rs st :
+  run_parser today cfg l line key rs st = run_parser today cfg l' line key rs st.
+Proof.
+  unfold run_parser.
+  repeat match goal with |- (if ?b then _ else _) = _ => destruct b end; try reflexivity.
+  - apply over_regexes_ext. intros. apply field_body_lang.
+  - apply over_regexes_ext. intros. apply text_body_lang.
+Qed.
+
+Lemma regex_tokinizer_lang today line st :
+  regex_tokinizer lx today cfg l line st = regex_tokinizer lx today cfg l' line st.
+Proof.
+  unfold regex_tokinizer. f_equal. revert st.
+  induction RustConsts.PARSER_ORDER as [|k r IH]; intros st; [reflexivity|].
+  destruct (assoc k (lx_parse lx)) as [rs|]; [|apply IH].
+  rewrite run_parser_lang. destruct (run_parser today cfg l' line k rs st); cbn [bind]; [apply IH|reflexivity].
+Qed.
+
+Lemma alias_tokinizer_lang today st :
+  alias_tokinizer lx today cfg l st = alias_tokinizer lx today cfg l' st.
+Proof. unfold alias_tokinizer. rewrite st_alias. reflexivity. Qed.
+
+(* Tokinizer::token_infos: what rule patterns are tokenised with at load time *)
+Lemma token_infos_lang today line : token_infos lx today cfg l line = token_infos lx today cfg l' line.
+Proof.
+  unfold token_infos. rewrite language_tokinizer_lang.
+  destruct (language_tokinizer lx cfg l' line empty_state) as [st1|]; cbn [bind]; [|reflexivity].
+  rewrite regex_tokinizer_lang.
+  destruct (regex_tokinizer lx today cfg l' line st1) as [st2|]; cbn [bind]; [|reflexivity].
+  rewrite alias_tokinizer_lang. reflexivity.
+Qed.
+
+(* ---- rules ---- *)
+Variable bexec : config F -> str -> res (option F).
+
+Lemma constant_of_lang w : constant_of cfg l w = constant_of cfg l' w.
+Proof. unfold constant_of. rewrite st_constants. reflexivity. Qed.
+
+Lemma call_rule_lang yr vs fname fs :
+  call_rule bexec yr cfg l vs fname fs = call_rule bexec yr cfg l' vs fname fs.
+Proof.
+  unfold call_rule.
+  repeat match goal with |- (if ?b then _ else _) = _ => destruct b end; try reflexivity.
+  - unfold duration_parse.
+    repeat match goal with
+           | |- ?x = ?x => reflexivity
+           | |- context [constant_of cfg l ?w] => rewrite (constant_of_lang w)
+           | |- context [match ?e with _ => _ end] => destruct e
+           end.
+  - unfold as_duration.
+    repeat match goal with
+           | |- ?x = ?x => reflexivity
+           | |- context [constant_of cfg l ?w] => rewrite (constant_of_lang w)
+           | |- context [match ?e with _ => _ end] => destruct e
+           end.
+Qed.
+
+Lemma rule_try_patterns_lang yr line vs r pats st :
+  rule_try_patterns bexec yr line cfg l vs r pats st = rule_try_patterns bexec yr line cfg l' vs r pats st.
+Proof.
+  induction pats as [|pat rest IH]; [reflexivity|].
+  cbn [rule_try_patterns].
+  destruct (find_match vs pat (ts_infos st)) as [m|]; cbn [bind]; [|reflexivity].
+  destruct (Nat.eqb _ _); [|exact IH].
+  destruct r as [fname ps|ps ar].
+  - rewrite call_rule_lang.
+    destruct (call_rule bexec yr cfg l' vs fname (fm_fields m)) as [[tok|]|]; cbn [bind]; try reflexivity.
+    exact IH.
+  - destruct (api_call cfg ar (fm_fields m)); [reflexivity|exact IH].
+Qed.
+
+Lemma rule_sweep_lang yr line vs rules : forall st fired,
+  rule_sweep bexec yr line cfg l vs rules st fired = rule_sweep bexec yr line cfg l' vs rules st fired.
+Proof.
+  induction rules as [|r rest IH]; intros; [reflexivity|].
+  cbn [rule_sweep]. rewrite rule_try_patterns_lang.
+  destruct (rule_try_patterns bexec yr line cfg l' vs r (rule_patterns r) st) as [[st'|]|]; cbn [bind];
+    try reflexivity; apply IH.
+Qed.
+
+Lemma rule_loop_lang yr fuel line vs rules : forall st,
+  rule_loop bexec yr fuel line cfg l vs rules st = rule_loop bexec yr fuel line cfg l' vs rules st.
+Proof.
+  induction fuel as [|f IH]; intros; [reflexivity|].
+  cbn [rule_loop]. rewrite rule_sweep_lang.
+  destruct (rule_sweep bexec yr line cfg l' vs rules st false) as [[st' fired]|]; cbn [bind]; [|reflexivity].
+  destruct fired; [apply IH|reflexivity].
+Qed.
+
+Lemma rule_tokinizer_lang yr fuel line vs st :
+  rule_tokinizer bexec yr fuel line cfg l vs st = rule_tokinizer bexec yr fuel line cfg l' vs st.
+Proof.
+  unfold rule_tokinizer. rewrite st_rules.
+  destruct (lang_rules cfg l'); [apply rule_loop_lang|reflexivity].
+Qed.
+
+(* ---- printing ---- *)
+Lemma duration_print_lang secs : duration_print cfg l secs = duration_print cfg l' secs.
+Proof. unfold duration_print. rewrite st_format. reflexivity. Qed.
+Lemma date_print_lang ny d tz : date_print cfg l ny d tz = date_print cfg l' ny d tz.
+Proof. unfold date_print. rewrite st_format. reflexivity. Qed.
+Lemma datetime_print_lang ny t tz : datetime_print cfg l ny t tz = datetime_print cfg l' ny t tz.
+Proof. unfold datetime_print. rewrite st_format. reflexivity. Qed.
+
+Lemma format_result_lang ny a : format_result cfg l ny a = format_result cfg l' ny a.
+Proof.
+  destruct a; try reflexivity. cbn [format_result].
+  destruct i; cbn [item_print]; try reflexivity.
+  - rewrite duration_print_lang. reflexivity.
+  - rewrite date_print_lang. reflexivity.
+  - rewrite datetime_print_lang. reflexivity.
+Qed.
+
+End Pair.
+
+(* ---- the pipeline ---- *)
+Variable ck : clock.
+
+Theorem tokinize_lang l l' vs line :
+  same_tables l l' -> tokinize lx ck cfg l vs line = tokinize lx ck cfg l' vs line.
+Proof.
+  intro H. unfold tokinize.
+  rewrite (language_tokinizer_lang l l' H).
+  destruct (language_tokinizer lx cfg l' line empty_state) as [st1|]; cbn [bind]; [|reflexivity].
+  rewrite (regex_tokinizer_lang l l' H).
+  destruct (regex_tokinizer lx (ck_today ck) cfg l' line st1) as [st2|]; cbn [bind]; [|reflexivity].
+  rewrite (alias_tokinizer_lang l l' H).
+  destruct (alias_tokinizer lx (ck_today ck) cfg l' st2) as [st3|]; cbn [bind]; [|reflexivity].
+  destruct (unfuel (update_token_variables line vs st3)) as [st4|]; cbn [bind]; [|reflexivity].
+  destruct (unfuel (dyn_loop (loop_fuel st4) line cfg vs st4)) as [st5|]; cbn [bind]; [|reflexivity].
+  rewrite (rule_tokinizer_lang l l' H). reflexivity.
+Qed.
+
+Theorem execute_text_lang l l' vs line :
+  same_tables l l' -> execute_text lx ck cfg l vs line = execute_text lx ck cfg l' vs line.
+Proof.
+  intro H. unfold execute_text.
+  destruct line as [|ch0 rest]; [reflexivity|].
+  rewrite (tokinize_lang l l' vs _ H).
+  destruct (tokinize lx ck cfg l' vs (ch0 :: rest)) as [[st tokens]|]; cbn [bind]; [|reflexivity].
+  destruct (ts_infos st) as [|i0 infos]; [reflexivity|].
+  destruct (parse tokens vs) as [[a|m|] vs2]; try reflexivity.
+  destruct (execute_ast (basic_execute lx ck) cfg vs2 a) as [[[v|m] vs3]|]; cbn [bind]; try reflexivity.
+  rewrite (format_result_lang l l' H). reflexivity.
+Qed.
+
+(* SmartCalc::execute: the result (status and lines); the session keeps the tag itself *)
+Definition res_snd {A B} (r : res (A * B)) : res B :=
+  match r with Ok (_, b) => Ok b | Panic p => Panic p end.
+
+Lemma session_loop_lang l l' : same_tables l l' -> forall fuel parts pos vs acc,
+  res_snd (session_loop lx ck fuel cfg {| se_parts := parts; se_position := pos; se_language := l; se_vars := vs |} acc)
+  = res_snd (session_loop lx ck fuel cfg {| se_parts := parts; se_position := pos; se_language := l'; se_vars := vs |} acc).
+Proof.
+  intros H fuel. induction fuel as [|f IH]; intros; [reflexivity|].
+  cbn [session_loop se_parts se_position se_language se_vars].
+  destruct (nth_opt parts pos) as [line|]; [|reflexivity].
+  rewrite (execute_text_lang l l' vs line H).
+  destruct (execute_text lx ck cfg l' vs line) as [[obs vs']|]; cbn [bind]; [|reflexivity].
+  destruct (Nat.ltb (S pos) (length parts)); [apply IH|reflexivity].
+Qed.
+
+Theorem execute_lang l l' text :
+  same_tables l l' -> execute lx ck cfg l text = execute lx ck cfg l' text.
+Proof.
+  intro H. unfold execute, execute_session, set_language, set_text, new_session.
+  cbn [se_parts se_position se_language se_vars].
+  destruct (Nat.ltb 0 (length (split_lines text []))); [|reflexivity].
+  pose proof (session_loop_lang l l' H (S (length (split_lines text []))) (split_lines text []) 0%nat [] []) as E.
+  unfold res_snd in E.
+  destruct (session_loop lx ck _ cfg {| se_language := l |} []) as [[s1 a1]|p1];
+  destruct (session_loop lx ck _ cfg {| se_language := l' |} []) as [[s2 a2]|p2]; cbn [bind snd fst];
+    try discriminate; inversion E; reflexivity.
+Qed.
+
+Corollary unknown_tags_alike l l' text :
+  unknown_tag l -> unknown_tag l' -> execute lx ck cfg l text = execute lx ck cfg l' text.
+Proof. intros U U'. apply execute_lang, unknown_same; assumption. Qed.
+
+End LangParam.
+
+(* ------------------------------------------------------------------------------------- *)
+(* 2. the regenerated tables of en and tr are parallel                                    *)
+(* ------------------------------------------------------------------------------------- *)
+From SC.Model Require Import Run64.
+From SC.Gen Require Import ConfigData Regexes RustConsts.
+
+(* UTF-8 string literals of this file as code points ([Base.s] is for ASCII) *)
+Fixpoint utf8_dec (fuel : nat) (l : list N) : str :=
+  match fuel with
+  | O => []
+  | S f =>
+    match l with
+    | [] => []
+    | a :: r =>
+      if (a <? 128)%N then a :: utf8_dec f r
+      else if (a <? 224)%N then
+        match r with b :: r' => ((a - 192) * 64 + (b - 128))%N :: utf8_dec f r' | _ => [] end
+      else if (a <? 240)%N then
+        match r with b :: c :: r' => ((a - 224) * 4096 + (b - 128) * 64 + (c - 128))%N :: utf8_dec f r' | _ => [] end
+      else
+        match r with
+        | b :: c :: d :: r' => ((a - 240) * 262144 + (b - 128) * 4096 + (c - 128) * 64 + (d - 128))%N :: utf8_dec f r'
+        | _ => [] end
+    end
+  end.
+Definition u (x : string) : str := let l := s x in utf8_dec (length l) l.
+
+Example u_example : u "şubat ARALIK ı İ €" = [351; 117; 98; 97; 116; 32; 65; 82; 65; 76; 73; 75; 32; 305; 32; 304; 32; 8364]%N.
+Proof. vm_compute. reflexivity. Qed.
+
+Definition L_en : str := s "en".
+Definition L_tr : str := s "tr".
+
+Lemma configured_languages :
+  d_languages = [L_en; L_tr] /\
+  map fst (cf_constant_pair default_config) = [L_en; L_tr] /\ map fst (cf_word_group default_config) = [L_en; L_tr] /\
+  map fst (cf_rules default_config) = [L_en; L_tr] /\ map fst (cf_months default_config) = [L_en; L_tr] /\
+  map fst (cf_format default_config) = [L_en; L_tr] /\
+  map fst (lx_lang_alias LX) = [L_en; L_tr] /\ map fst (lx_months LX) = [L_en; L_tr] /\
+  cf_constant_pair default_config = d_constant_pair /\ cf_word_group default_config = d_word_group /\
+  cf_months default_config = d_months /\ cf_format default_config = d_format.
+Proof. vm_compute. repeat split. Qed.
+
+(* ---- constants: duration and day keywords ---- *)
+Definition consttype_eqb (a b : consttype) : bool :=
+  match a, b with
+  | CDay, CDay | CWeek, CWeek | CMonth, CMonth | CYear, CYear | CSecond, CSecond | CMinute, CMinute
+  | CHour, CHour | CToday, CToday | CTomorrow, CTomorrow | CYesterday, CYesterday | CNow, CNow => true
+  | _, _ => false
+  end.
+
+Definition is_unit (c : consttype) : bool :=
+  match c with CDay | CWeek | CMonth | CYear | CSecond | CMinute | CHour => true | _ => false end.
+
+Definition consts_of (lang : str) : list (str * consttype) :=
+  match assoc lang d_constant_pair with Some m => m | None => [] end.
+
+Definition words_for (lang : str) (c : consttype) : list str :=
+  map fst (filter (fun kv => consttype_eqb (snd kv) c) (consts_of lang)).
+
+Definition group_of (lang : str) (g : string) : list str :=
+  match assoc lang d_word_group with
+  | Some gs => match assoc (s g) gs with Some l => l | None => [] end
+  | None => []
+  end.
+
+(* every constant (second .. year, today, tomorrow, yesterday, now) has a keyword in both languages *)
+Lemma consts_parallel (c : consttype) : words_for L_en c <> [] /\ words_for L_tr c <> [].
+Proof. destruct c; split; vm_compute; discriminate. Qed.
+
+Lemma consts_translate lang lang' w c :
+  In lang [L_en; L_tr] -> In lang' [L_en; L_tr] ->
+  In (w, c) (consts_of lang) -> exists w', assoc w' (consts_of lang') = Some c.
+Proof.
+  intros _ Hl' _.
+  assert (forall l, In l [L_en; L_tr] -> exists w', assoc w' (consts_of l) = Some c) as A.
+  { intros l [<-|[<-|[]]]; destruct c;
+      match goal with
+      | |- exists w', assoc w' (consts_of ?l) = Some ?k =>
+        let ws := eval vm_compute in (words_for l k) in
+        match ws with ?w0 :: _ => exists w0; vm_compute; reflexivity end
+      end. }
+  apply A, Hl'.
+Qed.
+
+(* the duration keywords are exactly the words of the language's duration_group (what the
+   duration_parse pattern {NUMBER:duration} {GROUP:type:duration_group} accepts) *)
+Definition unit_words_ok (lang : str) : bool :=
+  forallb (fun kv => implb (is_unit (snd kv)) (mem_str (fst kv) (group_of lang "duration_group"))) (consts_of lang) &&
+  forallb (fun w => match assoc w (consts_of lang) with Some c => is_unit c | None => false end)
+          (group_of lang "duration_group").
+
+Lemma mem_str_In x l : mem_str x l = true -> In x l.
+Proof.
+  induction l as [|y r IH]; cbn [mem_str]; [discriminate|].
+  destruct (str_eqb x y) eqn:E.
+  - intros _. left. symmetry. apply str_eqb_eq, E.
+  - intro H. right. apply IH, H.
+Qed.
+
+Lemma unit_words_group lang :
+  In lang [L_en; L_tr] ->
+  (forall w c, In (w, c) (consts_of lang) -> is_unit c = true -> In w (group_of lang "duration_group")) /\
+  (forall w, In w (group_of lang "duration_group") -> exists c, assoc w (consts_of lang) = Some c /\ is_unit c = true).
+Proof.
+  intro Hl.
+  assert (unit_words_ok lang = true) as A by (destruct Hl as [<-|[<-|[]]]; vm_compute; reflexivity).
+  apply andb_prop in A as [A1 A2]. rewrite forallb_forall in A1, A2. split.
+  - intros w c Hin Hu. specialize (A1 _ Hin). cbn [fst snd] in A1. rewrite Hu in A1. apply mem_str_In, A1.
+  - intros w Hin. specialize (A2 _ Hin). destruct (assoc w (consts_of lang)) as [c|]; [|discriminate].
+    exists c. split; [reflexivity|exact A2].
+Qed.
+
+(* tr configures no conversion words and no number-base words *)
+Lemma groups_only_en :
+  group_of L_tr "conversion_group" = [] /\ group_of L_tr "number_type_group" = [] /\
+  group_of L_en "conversion_group" = map s ["in"; "into"; "as"; "to"]%string /\
+  group_of L_en "number_type_group" = map s ["hex"; "hexadecimal"; "decimal"; "octal"; "binary"]%string.
+Proof. vm_compute. repeat split. Qed.
+
+(* ---- months ---- *)
+Definition months_of (lang : str) : list monthinfo := match assoc lang d_months with Some l => l | None => [] end.
+Definition month_res (lang : str) : list (cre * monthinfo) := match assoc lang g_months with Some l => l | None => [] end.
+
+Definition months_ok (lang : str) : bool :=
+  forallb (fun cm => re_is_match (fst cm) (mi_long (snd cm)) && re_is_match (fst cm) (mi_short (snd cm))
+                     && negb (str_eqb (mi_long (snd cm)) []) && negb (str_eqb (mi_short (snd cm)) []))
+          (month_res lang).
+
+(* every month number 1..12 has an entry with a long and a short name in both languages; the lexer's
+   month regexes carry the same entries and each matches its own names *)
+Lemma months_parallel lang :
+  In lang [L_en; L_tr] ->
+  map mi_month (months_of lang) = [1; 2; 3; 4; 5; 6; 7; 8; 9; 10; 11; 12] /\
+  map snd (month_res lang) = months_of lang /\
+  (forall c mi, In (c, mi) (month_res lang) ->
+     re_is_match c (mi_long mi) = true /\ re_is_match c (mi_short mi) = true /\ mi_long mi <> [] /\ mi_short mi <> []).
+Proof.
+  intro Hl.
+  assert (months_ok lang = true) as A by (destruct Hl as [<-|[<-|[]]]; vm_compute; reflexivity).
+  split; [destruct Hl as [<-|[<-|[]]]; vm_compute; reflexivity|].
+  split; [destruct Hl as [<-|[<-|[]]]; vm_compute; reflexivity|].
+  unfold months_ok in A. rewrite forallb_forall in A.
+  intros c mi Hin. specialize (A _ Hin). cbn [fst snd] in A.
+  apply andb_prop in A as [A A4]. apply andb_prop in A as [A A3]. apply andb_prop in A as [A1 A2].
+  repeat split; try assumption.
+  - intro E. rewrite E in A3. discriminate.
+  - intro E. rewrite E in A4. discriminate.
+Qed.
+
+(* ---- rules ---- *)
+Definition rule_name (r : rule float) : str := match r with RInternal n _ => n | RApi _ ar => ar_name ar end.
+Definition rules_of (lang : str) : list (rule float) :=
+  match assoc lang (cf_rules default_config) with Some l => l | None => [] end.
+Definition rule_names (lang : str) : list str := map rule_name (rules_of lang).
+
+Definition field_code (f : field) : str :=
+  match f with
+  | FText n _ => s "TEXT:" ++ n
+  | FDateTime n => s "DATE_TIME:" ++ n
+  | FDate n => s "DATE:" ++ n
+  | FTime n => s "TIME:" ++ n
+  | FMoney n => s "MONEY:" ++ n
+  | FPercent n => s "PERCENT:" ++ n
+  | FNumber n => s "NUMBER:" ++ n
+  | FGroup n _ => s "GROUP:" ++ n
+  | FTypeGroup ts n => concat_str (map (fun t => t ++ s "|") ts) ++ s ":" ++ n
+  | FMonth n => s "MONTH:" ++ n
+  | FDuration n => s "DURATION:" ++ n
+  | FTimezone n => s "TIMEZONE:" ++ n
+  | FDynamicType n _ => s "DYNAMIC_TYPE:" ++ n
+  end.
+
+(* a pattern element up to keyword words: a field keeps its kind and name (a GROUP loses its word
+   list, a TEXT its expected word), a literal word becomes "#", an operator stays *)
+Definition tok_code (t : token_info float) : str :=
+  match ti_ty t with
+  | Some (TField f) => field_code f
+  | Some (TText _) => s "#"
+  | Some (TOperator c) => [c]
+  | _ => s "?"
+  end.
+
+Definition is_word_code (c : str) : bool := str_eqb c (s "#").
+Definition skeleton (r : rule float) : list (list str) := map (map tok_code) (rule_patterns r).
+(* ... and without the positions of the literal words *)
+Definition field_skeleton (r : rule float) : list (list str * nat) :=
+  map (fun p => (filter (fun c => negb (is_word_code c)) p, length (filter is_word_code p))) (skeleton r).
+
+Definition rule_named (lang : str) (n : string) : option (rule float) :=
+  List.find (fun r => str_eqb (rule_name r) (s n)) (rules_of lang).
+
+Definition pat_eqb (a b : list str) : bool := Match.list_str_eqb a b.
+Definition incl_pats (a b : list (list str)) : bool := forallb (fun p => existsb (pat_eqb p) b) a.
+Definition same_up_to_order (a b : list (list str)) : bool :=
+  Nat.eqb (length a) (length b) && incl_pats a b && incl_pats b a.
+Definition fpat_eqb (a b : list str * nat) : bool := pat_eqb (fst a) (fst b) && Nat.eqb (snd a) (snd b).
+Definition fsame_up_to_order (a b : list (list str * nat)) : bool :=
+  Nat.eqb (length a) (length b) && forallb (fun p => existsb (fpat_eqb p) b) a && forallb (fun p => existsb (fpat_eqb p) a) b.
+
+Definition shared_rules : list string :=
+  ["as_duration"; "combine_durations"; "convert_money"; "division_cleanup"; "duration_parse"; "find_numbers_percent";
+   "find_total_from_percent"; "number_of"; "number_off"; "number_on"; "percent_calculator"; "to_duration"; "small_date"]%string.
+Definition rules_only_en : list string :=
+  ["at_date"; "convert_timezone"; "dynamic_type_convert"; "from_unixtime"; "number_type_convert"; "time_with_timezone";
+   "to_unixtime"]%string.
+
+Definition skel_of (lang : str) (n : string) : list (list str) :=
+  match rule_named lang n with Some r => skeleton r | None => [] end.
+Definition fskel_of (lang : str) (n : string) : list (list str * nat) :=
+  match rule_named lang n with Some r => field_skeleton r | None => [] end.
+
+(* a pattern with a GROUP field whose word list is empty can never match *)
+Definition dead_pattern (p : list (token_info float)) : bool :=
+  existsb (fun t => match ti_ty t with Some (TField (FGroup _ [])) => true | _ => false end) p.
+Definition dead_rule (r : rule float) : bool := forallb dead_pattern (rule_patterns r).
+
+Lemma rules_parallel :
+  (* which rules each language has (BTreeMap order, small_date appended by SmartCalc::default) *)
+  rule_names L_tr = map s shared_rules /\
+  (forall n, In n (rule_names L_en) <-> In n (map s shared_rules) \/ In n (map s rules_only_en)) /\
+  (forall n, In n (map s rules_only_en) -> ~ In n (rule_names L_tr)) /\
+  (* shared rules: the same patterns up to keyword words and the order of the patterns *)
+  (forall n, In n shared_rules -> n <> "to_duration"%string -> n <> "small_date"%string ->
+     same_up_to_order (skel_of L_en n) (skel_of L_tr n) = true) /\
+  (* to_duration: `A to B` / `A B arası` - the same fields in the same order, one keyword each *)
+  fsame_up_to_order (fskel_of L_en "to_duration") (fskel_of L_tr "to_duration") = true /\
+  (* small_date: the tr spellings are three of the five en spellings *)
+  incl_pats (skel_of L_tr "small_date") (skel_of L_en "small_date") = true /\
+  length (skel_of L_en "small_date") = 5%nat /\ length (skel_of L_tr "small_date") = 3%nat /\
+  (* the rules of tr that cannot fire because their conversion-word group is empty *)
+  map rule_name (filter dead_rule (rules_of L_tr)) = [s "as_duration"] /\
+  map rule_name (filter dead_rule (rules_of L_en)) = [].
+Proof.
+  split; [vm_compute; reflexivity|].
+  split.
+  { intro n. split.
+    - intro H. vm_compute in H.
+      repeat (destruct H as [<-|H]; [vm_compute; tauto|]). destruct H.
+    - intros [H|H]; vm_compute in H; repeat (destruct H as [<-|H]; [vm_compute; tauto|]); destruct H. }
+  split.
+  { intros n H. vm_compute in H.
+    repeat (destruct H as [<-|H]; [vm_compute; intuition discriminate|]). destruct H. }
+  split.
+  { intros n H N1 N2. cbn [shared_rules In] in H.
+    repeat (destruct H as [<-|H]; [try (vm_compute; reflexivity); try (exfalso; apply N1; reflexivity);
+                                   exfalso; apply N2; reflexivity|]). destruct H. }
+  vm_compute. repeat split.
+Qed.
+
+(* ---- operator words ---- *)
+Definition aliases_of (lang : str) : list (str * str) := match assoc lang d_lang_alias with Some l => l | None => [] end.
+Definition alias_res (lang : str) : list (cre * str) := match assoc lang g_lang_alias with Some l => l | None => [] end.
+
+Definition alias_words_ok (lang : str) : bool :=
+  Match.list_str_eqb (map snd (alias_res lang)) (map snd (aliases_of lang)) &&
+  (fix go (a : list (cre * str)) (b : list (str * str)) : bool :=
+     match a, b with
+     | [], [] => true
+     | (c, _) :: a', (w, _) :: b' => re_is_match c w && go a' b'
+     | _, _ => false
+     end) (alias_res lang) (aliases_of lang).
+
+Definition en_has_target (kv : str * str) : bool := existsb (fun kv' => str_eqb (snd kv') (snd kv)) (aliases_of L_en).
+
+(* every operator word of tr is rewritten to the atom some en word is rewritten to; `divide` is the
+   only en word without a tr counterpart; the alias regexes of the lexer are the words of the table *)
+Lemma aliases_parallel :
+  (forall w r, In (w, r) (aliases_of L_tr) -> exists w', In (w', r) (aliases_of L_en)) /\
+  map fst (filter (fun kv => negb (existsb (fun kv' => str_eqb (snd kv') (snd kv)) (aliases_of L_tr))) (aliases_of L_en))
+    = [s "divide"] /\
+  alias_words_ok L_en = true /\ alias_words_ok L_tr = true /\
+  map (fun kv => (fst kv, snd kv)) (aliases_of L_en)
+    = [(s "add", s "[OPERATOR:+]"); (s "append", s "[OPERATOR:+]"); (s "divide", s "[OPERATOR:/]"); (s "euro", s "eur");
+       (s "exclude", s "[OPERATOR:-]"); (s "minus", s "[OPERATOR:-]"); (s "multiply", s "[OPERATOR:*]");
+       (s "sum", s "[OPERATOR:+]"); (s "times", s "[OPERATOR:*]")] /\
+  aliases_of L_tr
+    = [(u "carp", s "[OPERATOR:*]"); (u "carpi", s "[OPERATOR:*]"); (u "cikar", s "[OPERATOR:-]"); (u "cikart", s "[OPERATOR:-]");
+       (u "ekle", s "[OPERATOR:+]"); (u "eksi", s "[OPERATOR:-]"); (u "euro", s "eur"); (u "kere", s "[OPERATOR:*]");
+       (u "topla", s "[OPERATOR:+]"); (u "toplam", s "[OPERATOR:+]"); (u "çarp", s "[OPERATOR:*]"); (u "çarpı", s "[OPERATOR:*]");
+       (u "çıkar", s "[OPERATOR:-]"); (u "çıkart", s "[OPERATOR:-]")].
+Proof.
+  split.
+  { assert (forallb en_has_target (aliases_of L_tr) = true) as A by (vm_compute; reflexivity).
+    rewrite forallb_forall in A. intros w r Hin. specialize (A _ Hin). unfold en_has_target in A.
+    apply existsb_exists in A as [[w' r'] [Hin' E]]. cbn [snd] in E. exists w'.
+    apply str_eqb_eq in E. subst r'. exact Hin'. }
+  vm_compute. repeat split.
+Qed.
